@@ -367,6 +367,11 @@ func runC17(c *Ctx) {
 				c.Note("trs." + sp.comment)
 			}
 			c.Emit("c17.trs.array", trsArgs+args, outArr(t.TransformArray(pts)))
+			{
+				ip2 := append([]vector3.Float64{}, pts...)
+				t.TransformInPlace(ip2)
+				c.Emit("c17.trs.inplace", trsArgs+args, outArr(ip2))
+			}
 			fp := geometry.NewAABBFromPoints(pts...)
 			c.Emit("c17.aabb.frompoints", strings.TrimSpace(args), bbF(fp))
 			c.Emit("c17.aabb.frompoints_class", strings.TrimSpace(args), bbClass(fp))
